@@ -125,6 +125,13 @@ func C16_Run(job string) {
 		check(y, hand([]string{"c"}, "y"), "C16:derived-schemas-influence-each-other")
 		check(base, hand([]string{"a", "b", "c"}), "C16:derivation-modified-its-operand")
 	case "omit-map":
+		// each argument is applied on its own: a later false entry does not undo an earlier omission
+		y1 := base.Omit("a", map[string]bool{"a": false})
+		check(y1, hand([]string{"b", "c"}), "C16:omit-differs-from-handwritten")
+		y2 := base.Omit(map[string]bool{"b": true}, map[string]bool{"b": false, "c": true})
+		check(y2, hand([]string{"a"}), "C16:omit-differs-from-handwritten")
+		y3 := base.Pick("a", map[string]bool{"a": false, "b": true})
+		check(y3, hand([]string{"a", "b"}), "C16:pick-differs-from-handwritten")
 		x := base.Omit(map[string]bool{"a": true, "b": false})
 		check(x, hand([]string{"b", "c"}), "C16:omit-differs-from-handwritten")
 		check(base, hand([]string{"a", "b", "c"}), "C16:derivation-modified-its-operand")
@@ -167,6 +174,14 @@ func C16_Run(job string) {
 		clean.Parse(in, &dd)
 		c3.Parse(in, &dd)
 		v.Assert(log == "B3", "C16:derivation-modified-its-operand")
+		// a rules-only middle operand (no fields): the receiver's field map must not be written
+		recv := mkBase()
+		rules := z.Struct(z.Schema{}).Test(c16Test("r"))
+		last := z.Struct(z.Schema{"d": c16Field(td)})
+		m3 := recv.Merge(rules, last)
+		check(m3, hand([]string{"a", "b", "c", "d"}, "r"), "C16:merge-differs-from-handwritten")
+		check(recv, hand([]string{"a", "b", "c"}), "C16:derivation-modified-its-operand")
+		check(rules, z.Struct(z.Schema{}).Test(c16Test("r")), "C16:derivation-modified-its-operand")
 	case "transforms":
 		// Pick/Omit/Extend keep the struct-level PostTransforms; later additions stay local
 		log := ""
@@ -215,7 +230,7 @@ func C17_Jobs() []string {
 	for _, op := range c17NotOps {
 		out = append(out, "not/"+op)
 	}
-	out = append(out, "not-scope", "not-empty-arg", "lastcall/int", "lastcall/str", "lastcall/slice", "lastcall/options", "options/local", "options/shared-test", "coercer/local", "coercer/slice", "shared/fields", "shared/slice")
+	out = append(out, "not-scope", "not-empty-arg", "lastcall/int", "lastcall/str", "lastcall/slice", "lastcall/options", "options/local", "options/shared-test", "options/not-moved", "not-with-options", "coercer/local", "coercer/slice", "shared/fields", "shared/slice")
 	return out
 }
 func C17_Covers() []string { return []string{"checked"} }
@@ -332,7 +347,48 @@ func C17_Run(job string) {
 		v.Assert(len(errs) == 2 && errs[0].Code == code && errs[1].Code == "email", "C17:not-with-empty-argument")
 	case "lastcall":
 		c17LastCall(b)
+	case "not-with-options":
+		// options given to a negated test apply to that test as written
+		s := []string{"a@b.co", "nope"}[v.Choice("subj", 2)]
+		d := s
+		e1 := z.String().Not().Email(z.IssueCode("my_code"), z.Message("M")).Validate(&d)
+		if s == "a@b.co" {
+			v.Assert(len(e1) == 1 && e1[0].Code == "my_code" && e1[0].Message == "M", "C17:options-not-applied")
+		} else {
+			v.Assert(len(e1) == 0, "C17:not-is-not-the-negation")
+		}
+		e2 := z.String().Not().Email(z.IssueCode("not_email")).Validate(&d)
+		if s == "a@b.co" {
+			v.Assert(len(e2) == 1 && e2[0].Code == "not_email", "C17:options-not-applied")
+		}
+		e3 := z.String().Not().HasPrefix("a", z.IssuePath("p")).Email().Validate(&d)
+		for _, e := range e3 {
+			v.Assert((e.Code == "not_prefix") == (e.Path == "p"), "C17:options-leaked-to-another-test")
+		}
+		v.Cover("checked")
+		return
 	case "options":
+		if b == "not-moved" {
+			// the Message of one test does not decorate issues that are not made by that test
+			var sl []int
+			e1 := z.Slice(z.Int().GT(5, z.Message("M-GT"))).Min(9, z.Message("M-MIN")).Parse([]any{10, "abc", nil, 1}, &sl)
+			v.Assert(len(e1["[1]"]) == 1 && e1["[1]"][0].Code == "coerce" && e1["[1]"][0].Message != "M-GT", "C17:options-leaked-to-another-test")
+			v.Assert(len(e1["[3]"]) == 1 && e1["[3]"][0].Message == "M-GT", "C17:options-not-applied")
+			v.Assert(len(e1["$root"]) == 1 && e1["$root"][0].Message == "M-MIN", "C17:options-not-applied")
+			var ds struct {
+				A int
+				B string
+				C int
+			}
+			v.MapOrderChoice(true)
+			e2 := z.Struct(z.Schema{"a": z.Int().GT(5, z.Message("M-A")), "b": z.String().Required(), "c": z.Int().PostTransform(func(p any, c z.Ctx) error { return errBadInput })}).
+				Parse(map[string]any{"a": 10, "c": 1}, &ds)
+			v.Assert(len(e2["b"]) == 1 && e2["b"][0].Message != "M-A", "C17:options-leaked-to-another-test")
+			// (c's transform runs only if nothing failed before it: depends on the visit order)
+			v.Assert(len(e2["c"]) == 0 || (len(e2["c"]) == 1 && e2["c"][0].Message != "M-A"), "C17:options-leaked-to-another-test")
+			v.Cover("checked")
+			return
+		}
 		if b == "shared-test" {
 			// a reusable Test value (z.TestFunc) copied and given different options: each copy
 			// reports with its own code, message, path and params
